@@ -51,6 +51,28 @@ def main():
                 j = m["diff"][0] if isinstance(m["diff"], list) and m["diff"] else 0
                 op = c["h"][j]["op"] if j < len(c["h"]) else "?"
                 verdict.report("C10." + op, c["kind"], {"history": c, "got": m["got"], "first_diff": j, "build": bname})
+        # futures inside running computations: the scheduler-level clauses of C10 (one completion per future, the provider
+        # of a lazily computed Future runs at most once - also when the same future is yielded twice or re-yielded)
+        import pipeline
+        import plang
+        cprogs = plang.sample("again", common.seed(), 300 if tier == "quick" else 3000) + \
+            plang.sample("lazyfail", common.seed(), 150 if tier == "quick" else 1500)
+        cjobs = [{"id": i, "prog": p, "schedule": None, "tb": i if i % 2 else None} for i, p in enumerate(cprogs)]
+        ctraces = []
+        for bname, bdir in builds.items():
+            for j, r in zip(cjobs, pipeline.run_jobs(bdir, cjobs)):
+                if r.get("crash"):
+                    raise MachineryError("harness crashed: %s" % r["crash"])
+                ctraces.append({"id": len(ctraces), "prog": j["prog"], "events": r["events"], "build": bname, "tb": j["tb"]})
+        cv, cst = pipeline.validate(ctraces, sc)
+        ncore = 0
+        for t in ctraces:
+            for entry in cv[t["id"]]:
+                cl = pipeline.clause_of(entry)
+                if cl.startswith("C10."):
+                    ncore += 1
+                    verdict.report(cl, "in-computation", {"prog": t["prog"], "tb": t["tb"], "build": t["build"], "entry": entry})
+        total += len(ctraces)
         if alarm and not verdict.violations:
             raise MachineryError(alarm + " on Future.tla but the real objects follow every prescribed history: the model is wrong\n" + res.out[-2000:])
         kinds = sorted({c["kind"] for c in cases})
@@ -61,7 +83,8 @@ def main():
             "samples": cases[:2] + cases[len(cases) // 2: len(cases) // 2 + 1],
             "history_depth": depth, "histories": len(cases), "object_kinds": kinds, "builds": list(builds),
             "model_invariants": ["SingleAssignment", "AtMostOneRun", "NotifiedOncePerCompletion", "NotifiedOnlyWhenComplete", "AllNotified", "BornComplete"],
-            "model_ok": res.ok, "mismatching_histories": nmis,
+            "model_ok": res.ok, "mismatching_histories": nmis, "in_computation_traces": len(ctraces), "in_computation_clause_violations": ncore,
+            "monitor_states": cst["states"],
             "evaluations": total, "distinct_nontrivial": nontriv,
             "rule": "every operation history of length %d over 12 operations x 8 object kinds; non-trivial = contains a set/reset and a read" % depth,
             "exhaustive": True,
